@@ -397,6 +397,29 @@ func genC17(c *Ctx) {
 		out := c.Emit(teiLine("tei", depth, joinStream(cmds, !c.R.Chance(1, 20))))
 		countTEI(c, out)
 	}
+	// budgets that run out inside the first ply: positions whose first generated move is illegal (a1 the mover's own stone
+	// next to a wall or capstone; a1 empty and only capstones left cannot arise from startpos) and ordinary ones; every
+	// `go` carries a time argument for the side to move, so a deadline is installed - and has passed
+	n = c.Scale(120, 6000)
+	for i := 0; i < n; i++ {
+		size := 3 + c.R.Intn(4)
+		lines := [][]string{
+			{"a" + strconv.Itoa(size), string(rune('a'+size-1)) + strconv.Itoa(size), "a1", "Sb1"},
+			{"a1", string(rune('a'+size-1)) + strconv.Itoa(size), "Sb1"},
+			{"a" + strconv.Itoa(size), string(rune('a'+size-1)) + "1", "a1", "Sa2", "b2", "Sb1"},
+			{},
+			{"a1", "b2"},
+		}
+		mv := lines[c.R.Intn(len(lines))]
+		pos := "position startpos"
+		if len(mv) > 0 {
+			pos += " moves " + strings.Join(mv, " ")
+		}
+		goCmd := []string{"go movetime 1", "go wtime 6 btime 6", "go movetime 50 wtime 1000 btime 1000 winc 5 binc 5", "go wtime 1 btime 1"}[c.R.Intn(4)]
+		cmds := []string{"teinewgame " + strconv.Itoa(size), pos, goCmd, "isready", goCmd}
+		out := c.Emit(teiLine("teiexp", 1+c.R.Intn(3), joinStream(cmds, true)))
+		c.Count("teiexp." + clip(out, 3))
+	}
 }
 
 // ---------------------------------------------------------------- malformed streams (C13, TEI part)
